@@ -801,11 +801,10 @@ func (f *STFS) Rename(oldname, newname string) error {
 			return os.ErrExist
 		}
 
+		// Replace the target: remove it, then move the source onto its name
 		if err := f.removeWithoutLocking(newname); err != nil {
 			return err
 		}
-
-		return err
 	}
 
 	return f.writeOps.Move(oldname, newname)
